@@ -508,7 +508,10 @@ fn record(acc: &Mutex<Acc>, co: CaseOut) {
     if co.nontrivial {
         a.fingerprints.insert(co.fingerprint);
     }
-    for l in co.labels {
+    let mut labels = co.labels;
+    labels.sort();
+    labels.dedup();
+    for l in labels {
         *a.labels.entry(l).or_default() += 1;
     }
     for l in co.excluded {
